@@ -36,7 +36,8 @@ PROP = {'lean_props': ['Comrak.Props.C03'],
  'assumptions': ['default options plus the extensions strikethrough, table, tasklist, footnotes (needed by the constructs); footnote definitions are '
                  'one paragraph each, footnote names letters and digits; HTML blocks of start condition 6 only']}
 
-TEXT = {'text': 'Proof + correspondence. Lean defines an inductive type Doc of canonical Markdown documents (paragraph, ATX and setext heading, thematic '
+TEXT = {'text_added': 'Also checked against an independently written rendering: one reference definition used 4..900 times (full, collapsed and shortcut form, label case variants, definition before or after the uses) with the total expansion below the cap - every use resolves.',
+ 'text': 'Proof + correspondence. Lean defines an inductive type Doc of canonical Markdown documents (paragraph, ATX and setext heading, thematic '
          'break, fenced and indented code, block quote, tight/loose bullet and ordered lists of any nesting; text with backslash escapes, '
          'named/numeric character references and multi-byte characters, code spans, emphasis, strong, GFM strikethrough, inline links with titles '
          'and reference links (definitions before or after use, label case variants, shadowed duplicate definitions), images, autolinks, hard and '
